@@ -275,8 +275,9 @@ def selftest(only=None):
             meta = json.load(open(meta_path))
             if not meta.get('confirmed'):
                 continue
-            if only and meta['property'] != only and not meta['seed'].startswith(only) and ('-%s-' % only) not in meta['seed']:
-                continue      # a property id, a seed id prefix, or a round tag such as r4
+            if only and not any(meta['property'] == o or meta['seed'].startswith(o) or ('-%s-' % o) in meta['seed']
+                                for o in only.split(',')):
+                continue      # a property id, a seed id prefix, or a round tag such as r4 (several, comma-separated)
             jobs.append((meta_path, meta))
         head = subprocess.run(['git', '-C', REPO, 'rev-parse', '--short', 'HEAD'], capture_output=True, text=True).stdout.strip()
         njobs = max(1, int(os.environ.get('VERIF_SELFTEST_JOBS', '3')))
